@@ -179,26 +179,31 @@ Theorem C04_back_typescript_field :
 Proof. exact Proofs.C04_Back.ts_field_good. Qed.
 Print Assumptions C04_back_typescript_field.
 
+(* newtype payload `content?: T`; for Option<Option<T>> `content?: T | null` - no carve-out (the former class
+   C04-ts-double-nonfield is repaired in /repo): the row the reader reports for the variant is good *)
 Theorem C04_back_typescript_payload :
   forall (cfg : ts_config) g ue t vsh s v s',
     (is_optional t = true -> tmap_get (ts_type_mappings cfg) (rtype_display t) = None) ->
     ts_variant_of cfg g ue (VTuple t vsh) s = Ok (v, s') ->
-    exists y, ts_texp cfg g (Proofs.C04.c04_strip t) s = Ok (y, s') /\ v = TVTuple (vcomments vsh) (renamed (vid vsh)) y (is_optional t) /\
-      forall decl, known_C04 TypeScript (Proofs.C04_Back.c04_expect_of C04Payload t false (ts_show y)) = None ->
+    exists y, ts_texp cfg g (Proofs.C04.c04_strip t) s = Ok (y, s') /\
+      v = TVTuple (vcomments vsh) (renamed (vid vsh)) y (is_optional t) (is_double_optional t) /\
+      forall docs decl gs tag content,
+        ts_c04_rows (TSUnion docs decl gs tag content [v]) =
+          [c04_mk decl (renamed (vid vsh)) C04Payload (is_optional t) (is_optional t) (is_double_optional t) (ts_show y) (ts_show y)] /\
         good_C04 TypeScript (Proofs.C04_Back.c04_expect_of C04Payload t false (ts_show y))
-                 (c04r_seen (c04_mk decl (renamed (vid vsh)) C04Payload (is_optional t) (is_optional t) false (ts_show y) (ts_show y))) = true.
+                 (c04r_seen (c04_mk decl (renamed (vid vsh)) C04Payload (is_optional t) (is_optional t) (is_double_optional t) (ts_show y) (ts_show y))) = true.
 Proof. exact Proofs.C04_Back.ts_payload_good. Qed.
 Print Assumptions C04_back_typescript_payload.
 
+(* alias target `type A = T | undefined`; for Option<Option<T>> `type A = T | null | undefined` - no carve-out *)
 Theorem C04_back_typescript_alias :
   forall (cfg : ts_config) uc a s d s',
     (is_optional (atype a) = true -> tmap_get (ts_type_mappings cfg) (rtype_display (atype a)) = None) ->
     ts_decl_of uc cfg (ItAlias a) s = Ok (d, s') ->
     exists y, ts_texp cfg (agenerics a) (Proofs.C04.c04_strip (atype a)) s = Ok (y, s') /\
-      ts_c04_rows d = [c04_mk (renamed (aid a)) [] C04Alias (is_optional (atype a)) (is_optional (atype a)) false (ts_show y) (ts_show y)] /\
-      (known_C04 TypeScript (Proofs.C04_Back.c04_expect_of C04Alias (atype a) false (ts_show y)) = None ->
-       good_C04 TypeScript (Proofs.C04_Back.c04_expect_of C04Alias (atype a) false (ts_show y))
-                (c04r_seen (c04_mk (renamed (aid a)) [] C04Alias (is_optional (atype a)) (is_optional (atype a)) false (ts_show y) (ts_show y))) = true).
+      ts_c04_rows d = [c04_mk (renamed (aid a)) [] C04Alias (is_optional (atype a)) (is_optional (atype a)) (is_double_optional (atype a)) (ts_show y) (ts_show y)] /\
+      good_C04 TypeScript (Proofs.C04_Back.c04_expect_of C04Alias (atype a) false (ts_show y))
+               (c04r_seen (c04_mk (renamed (aid a)) [] C04Alias (is_optional (atype a)) (is_optional (atype a)) (is_double_optional (atype a)) (ts_show y) (ts_show y))) = true.
 Proof. exact Proofs.C04_Back.ts_alias_good. Qed.
 Print Assumptions C04_back_typescript_alias.
 
@@ -212,24 +217,52 @@ Theorem C04_typescript_double_distinguishable :
 Proof. exact Proofs.C04_Back.ts_double_distinguishable. Qed.
 Print Assumptions C04_typescript_double_distinguishable.
 
-Theorem C04_ts_double_payload_refuted :
-  exists v st, ts_variant_of Proofs.C04_Matrix.c04w_ts_cfg [] false
-                 (VTuple Proofs.C04_Matrix.c04w_double {| vid := Proofs.C04_Matrix.c04m_id (lit "C"); vcomments := [] |}) [] = Ok (v, st) /\
-    known_C04 TypeScript (Proofs.C04_Back.c04_expect_of C04Payload Proofs.C04_Matrix.c04w_double false (lit "string")) = Some "C04-ts-double-nonfield"%string /\
-    exists r, ts_c04_rows (TSUnion [] (lit "E") [] (lit "t") (lit "c") [v]) = [r] /\
-      good_C04 TypeScript (Proofs.C04_Back.c04_expect_of C04Payload Proofs.C04_Matrix.c04w_double false (lit "string")) (c04r_seen r) = false.
-Proof. exact Proofs.C04_Matrix.ts_double_payload_refuted. Qed.
-Print Assumptions C04_ts_double_payload_refuted.
+(* ... and so at the two other positions: a newtype payload (`{ t: "V", c?: T | null }` vs `{ t: "V", c?: T }`) and an alias
+   target (`type A = T | null | undefined;` vs `type A = T | undefined;`) that differ at most in the `| null` flag and are
+   printed alike have the same flag *)
+Theorem C04_typescript_double_distinguishable_payload :
+  forall (tag content : str) docs wire ty opt (n1 n2 : bool),
+    ts_render_variant tag content (TVTuple docs wire ty opt n1) = ts_render_variant tag content (TVTuple docs wire ty opt n2) -> n1 = n2.
+Proof. exact Proofs.C04_Back.ts_double_distinguishable_payload. Qed.
+Print Assumptions C04_typescript_double_distinguishable_payload.
 
-Theorem C04_ts_double_alias_refuted :
-  exists d st r, ts_decl_of uc_exec Proofs.C04_Matrix.c04w_ts_cfg
-                   (ItAlias {| aid := Proofs.C04_Matrix.c04m_id (lit "A"); agenerics := []; atype := Proofs.C04_Matrix.c04w_double;
-                               acomments := []; adecs := []; aredacted := false |}) [] = Ok (d, st) /\
+Theorem C04_typescript_double_distinguishable_alias :
+  forall docs name gs ty undef (n1 n2 : bool),
+    ts_render_decl (TSAlias docs name gs ty undef n1) = ts_render_decl (TSAlias docs name gs ty undef n2) -> n1 = n2.
+Proof. exact Proofs.C04_Back.ts_double_distinguishable_alias. Qed.
+Print Assumptions C04_typescript_double_distinguishable_alias.
+
+(* regression pins of the repaired class C04-ts-double-nonfield: `C(Option<Option<String>>)` is written
+   `| { t: "C", c?: string | null }` (one Option layer: `c?: string }`), `type A = Option<Option<String>>` is written
+   `export type A = string | null | undefined;` (one layer: `string | undefined;`); the position is in no recorded class, the
+   reader sees the `| null`, and the row is good *)
+Theorem C04_ts_double_payload_fixed :
+  exists v st v1 st1,
+    ts_variant_of Proofs.C04_Matrix.c04w_ts_cfg [] false
+      (VTuple Proofs.C04_Matrix.c04w_double {| vid := Proofs.C04_Matrix.c04m_id (lit "C"); vcomments := [] |}) [] = Ok (v, st) /\
+    ts_variant_of Proofs.C04_Matrix.c04w_ts_cfg [] false
+      (VTuple (ROption (RPrim PString)) {| vid := Proofs.C04_Matrix.c04m_id (lit "C"); vcomments := [] |}) [] = Ok (v1, st1) /\
+    ts_render_variant (lit "t") (lit "c") v = nl ++ [ch_tab] ++ lit "| { t: ""C"", c?: string | null }" /\
+    ts_render_variant (lit "t") (lit "c") v1 = nl ++ [ch_tab] ++ lit "| { t: ""C"", c?: string }" /\
+    known_C04 TypeScript (Proofs.C04_Back.c04_expect_of C04Payload Proofs.C04_Matrix.c04w_double false (lit "string")) = None /\
+    exists r, ts_c04_rows (TSUnion [] (lit "E") [] (lit "t") (lit "c") [v]) = [r] /\
+      c04s_null_union (c04r_seen r) = true /\
+      good_C04 TypeScript (Proofs.C04_Back.c04_expect_of C04Payload Proofs.C04_Matrix.c04w_double false (lit "string")) (c04r_seen r) = true.
+Proof. exact Proofs.C04_Matrix.ts_double_payload_fixed. Qed.
+Print Assumptions C04_ts_double_payload_fixed.
+
+Theorem C04_ts_double_alias_fixed :
+  exists d st d1 st1 r,
+    ts_decl_of uc_exec Proofs.C04_Matrix.c04w_ts_cfg (Proofs.C04_Matrix.c04w_alias Proofs.C04_Matrix.c04w_double) [] = Ok (d, st) /\
+    ts_decl_of uc_exec Proofs.C04_Matrix.c04w_ts_cfg (Proofs.C04_Matrix.c04w_alias (ROption (RPrim PString))) [] = Ok (d1, st1) /\
+    ts_render_decl d = lit "export type A = string | null | undefined;" ++ nl ++ nl /\
+    ts_render_decl d1 = lit "export type A = string | undefined;" ++ nl ++ nl /\
     ts_c04_rows d = [r] /\
-    known_C04 TypeScript (Proofs.C04_Back.c04_expect_of C04Alias Proofs.C04_Matrix.c04w_double false (lit "string")) = Some "C04-ts-double-nonfield"%string /\
-    good_C04 TypeScript (Proofs.C04_Back.c04_expect_of C04Alias Proofs.C04_Matrix.c04w_double false (lit "string")) (c04r_seen r) = false.
-Proof. exact Proofs.C04_Matrix.ts_double_alias_refuted. Qed.
-Print Assumptions C04_ts_double_alias_refuted.
+    known_C04 TypeScript (Proofs.C04_Back.c04_expect_of C04Alias Proofs.C04_Matrix.c04w_double false (lit "string")) = None /\
+    c04s_null_union (c04r_seen r) = true /\
+    good_C04 TypeScript (Proofs.C04_Back.c04_expect_of C04Alias Proofs.C04_Matrix.c04w_double false (lit "string")) (c04r_seen r) = true.
+Proof. exact Proofs.C04_Matrix.ts_double_alias_fixed. Qed.
+Print Assumptions C04_ts_double_alias_fixed.
 
 (* Swift: the stored property AND the init parameter (formatted separately) carry `?` iff Option or default *)
 Theorem C04_back_swift_field :
